@@ -25,6 +25,12 @@ pub fn verif_root() -> PathBuf {
     }
 }
 
+/// Set (by the `check` driver) when this binary is the second build of the harness: cargo profile `nodebug`
+/// = release without debug assertions and overflow checks, i.e. what a user's `--release` build runs.
+pub fn profile_tag() -> Option<String> {
+    std::env::var("VERIF_PROFILE_TAG").ok().filter(|s| !s.is_empty())
+}
+
 #[derive(Clone, Copy, PartialEq, Eq, Debug)]
 pub enum Tier {
     Quick,
@@ -588,13 +594,16 @@ impl Report {
         let replay_dir = verif_root().join("work").join("replay");
         let _ = std::fs::create_dir_all(&replay_dir);
         for v in self.violations.iter_mut() {
-            let doc = json!({
+            let mut doc = json!({
                 "property": id,
                 "sub": v.sub,
                 "sig": v.sig,
                 "detail": v.detail,
                 "case": v.case,
             });
+            if let Some(tag) = profile_tag() {
+                doc["profile"] = json!(tag);
+            }
             let text = serde_json::to_string_pretty(&doc).unwrap_or_default();
             let h = hash_bytes(text.as_bytes());
             let path = replay_dir.join(format!("{}-{:016x}.json", id, h));
@@ -642,6 +651,24 @@ impl Report {
         if samples.is_empty() {
             samples.push(json!("no case was generated"));
         }
+        // merge the numbers of the run of the same check under the `nodebug` build, if the driver made one
+        if let Ok(path) = std::env::var("VERIF_MERGE_EVIDENCE") {
+            if let Ok(text) = std::fs::read_to_string(&path) {
+                if let Ok(other) = serde_json::from_str::<Value>(&text) {
+                    let e = other["coverage"]["evaluations"].as_u64().unwrap_or(0);
+                    let d = other["coverage"]["distinct_nontrivial"].as_u64().unwrap_or(0);
+                    evaluations += e;
+                    distinct_nontrivial += d;
+                    subs_json.insert(
+                        "same-check-under-release-profile".into(),
+                        json!({"evaluations": e, "distinct_nontrivial": d, "exhaustive": false, "violations": other["violations"],
+                               "note": "the whole check repeated by a second build of the harness (cargo profile nodebug: no debug assertions, no overflow checks), where code guarded by debug_assert! returns instead of panicking"}),
+                    );
+                    rules.push("[same-check-under-release-profile] every sub-check above repeated by a build without debug assertions and overflow checks (its evaluations are added)".into());
+                }
+                let _ = std::fs::remove_file(&path);
+            }
+        }
 
         let mut coverage = serde_json::Map::new();
         coverage.insert("evaluations".into(), json!(evaluations));
@@ -680,7 +707,10 @@ impl Report {
             "wall_s": (wall * 1000.0).round() / 1000.0,
             "violations": self.violations.len(),
         });
-        let ev_dir = verif_root().join("evidence");
+        let ev_dir = match profile_tag() {
+            Some(tag) => verif_root().join("work").join(format!("evidence-{}", tag)),
+            None => verif_root().join("evidence"),
+        };
         let _ = std::fs::create_dir_all(&ev_dir);
         let ev_path = ev_dir.join(format!("{}.json", id));
         if let Err(e) = std::fs::write(&ev_path, serde_json::to_string_pretty(&evidence).unwrap_or_default()) {
@@ -703,7 +733,8 @@ impl Report {
             println!("  sub-check {} [{}]: {}", v.sub, v.sig, truncate(&v.detail, 1200));
         }
         println!(
-            "{} {} seed={} evaluations={} distinct_nontrivial={} violations={} wall={:.1}s",
+            "{}{} {} seed={} evaluations={} distinct_nontrivial={} violations={} wall={:.1}s",
+            profile_tag().map(|t| format!("[{} build] ", t)).unwrap_or_default(),
             id,
             self.ctx.tier.name(),
             self.ctx.seed,
